@@ -387,13 +387,16 @@ def register_all(ck, tier):
     def reg():
         src = Src()
         R = build_validate(ck, src)
-        rp = harness.make_replayer(ck, "monotonic_counter", "validate_sequence", lambda s, obs: build_validate(ck, s, obs), {})
+        rp = harness.make_replayer(ck, "monotonic_counter", "validate_sequence", lambda s, obs: build_validate(ck, s, obs), {}, race_driver="race_submit")
         ck.register_src("validate_sequence", {}, src)
         for g, f in R["goals"].items():
             ck.prove(f"validate_sequence/{g}", R["eng"], R["hyps"], f, on_sat=rp, meta={"goal": g})
         for g, f in R["reach"].items():
             ck.reach(f"validate_sequence/{g}", R["eng"], R["hyps"], f)
         ck.side("validate_sequence/side", R["eng"], R["hyps"], on_sat=rp)
+        # validate-and-apply under ONE acquisition of the counters lock (a split critical section lets two tasks accept the same number);
+        # a satisfiable query is confirmed by a native multi-task stress run before it is reported
+        ck.single_critical_section("validate_sequence", R["eng"], R["hyps"], on_sat=rp)
         ck.out.samples.append({"obligation": "validate_sequence (async, whole call)", "state": "arbitrary HashMap<UserId,PeerCounter> as SMT arrays (history capacity 2), arbitrary user, sequence, hash, clock",
                                "goals": list(R["goals"])})
 
@@ -447,14 +450,14 @@ def register_all(ck, tier):
             tag = "batch_update[" + ("same peer" if same else "two peers") + "]"
             src = Src()
             R = build_batch(ck, same, src)
-            rp = harness.make_replayer(ck, "monotonic_counter", "batch", lambda s, obs: build_batch(ck, same, s, obs), params)
+            rp = harness.make_replayer(ck, "monotonic_counter", "batch", lambda s, obs: build_batch(ck, same, s, obs), params, race_driver="race_submit")
             ck.register_src("batch", params, src)
             for g, f in R["goals"].items():
                 ck.prove(f"{tag}/{g}", R["eng"], R["hyps"], f, on_sat=rp, meta={"goal": g})
             for g, f in R["reach"].items():
                 ck.reach(f"{tag}/{g}", R["eng"], R["hyps"], f)
             ck.side(f"{tag}/side", R["eng"], R["hyps"], on_sat=rp)
-            ck.single_critical_section(tag, R["eng"], R["hyps"], on_sat=None)
+            ck.single_critical_section(tag, R["eng"], R["hyps"], on_sat=rp)
             ck.out.samples.append({"obligation": tag + " (async)", "goals": list(R["goals"])})
 
         ck.guarded("batch_update[" + ("same peer" if same else "two peers") + "]", reg3)
